@@ -47,7 +47,7 @@ def canon(t, anon=False, top=True):
         return {"k": "arr", "elem": canon(t["elem"], anon=anon, top=False), "len": l2}
     if k in ("struct", "union"):
         return {"k": k, "name": "" if anon else t["name"],
-                "fields": [{"name": "" if f.get("anon") else f["name"], "type": canon(f["type"], anon=bool(f.get("anon") or f.get("inline")), top=False),
+                "fields": [{"name": "" if f.get("anon") else f["name"], "type": canon(f["type"], anon=bool(f.get("anon") or f.get("inline") is True), top=False),
                             "bits": f["bits"], "anon": bool(f.get("anon"))} for f in t["fields"]]}
     raise ValueError(k)
 
